@@ -37,6 +37,12 @@ impl FqVarExtension for FqVar {
         #[cfg(decaf377_verif)]
         let (was_square, y) = crate::ark_curve::r1cs::verif::hint(den, was_square, y);
 
+        // A constant has no constraint system to allocate the hints in: its inverse square root
+        // is the pair of constants computed above (nothing to constrain).
+        if self.is_constant() {
+            return Ok((Boolean::constant(was_square), FqVar::constant(y)));
+        }
+
         let cs = self.cs();
         let was_square_var = Boolean::new_witness(cs.clone(), || Ok(was_square))?;
         let y_var = FqVar::new_witness(cs.clone(), || Ok(y))?;
